@@ -617,6 +617,13 @@ pub struct ResponseMessage {
     pub(crate) data: Bytes,
 }
 
+#[cfg(feature = "memcrs_verif")]
+impl ResponseMessage {
+    pub fn verif_bytes(&self) -> &[u8] {
+        &self.data[..]
+    }
+}
+
 impl MemcacheBinaryCodec {
     const RESPONSE_HEADER_LEN: usize = 24;
 
